@@ -219,9 +219,18 @@ def run_one(args):
             env = core.Env("sym", seed=seed, ranges=jb.ranges)
             try:
                 jb.fn(env, **kw)
-            except (S.OutsideFragment, KeyboardInterrupt, MemoryError):
+            except (KeyboardInterrupt, MemoryError):
                 raise
             except Exception as e:
+                # obligations already refuted before the contract broke down are reported all the same
+                if any(o.refuted for o in env.obls):
+                    try:
+                        S.PATH.unexplored[:] = []
+                        _finish_pass(env, jb, kw, seed, want_props, res, agg, seen_names, S, core, last=True)
+                    except Exception:
+                        pass
+                if isinstance(e, S.OutsideFragment):
+                    raise
                 # an exception raised inside the repository's code: a violation only if the same contract, run natively on
                 # admissible inputs, makes the real code raise the same kind of exception (otherwise a limit of the engine)
                 obl = _repo_exception(e, jb, kw, seed, core, _sx)
